@@ -77,10 +77,12 @@ class VfsRequest(request.SmartServerRequest):
     def translate_client_path(self, relpath):
         """Translate a client-side relative path to a server-side path.
 
-        VFS requests are made with escaped paths so the escaping done in
-        SmartServerRequest.translate_client_path leads to double escaping.
-        Remove it here -- the fact that the result is still escaped means
-        that the str() will not fail on valid input.
+        VFS requests are made with escaped paths.  The client path is
+        unescaped *before* SmartServerRequest.translate_client_path
+        normalises and re-escapes it, so that every "/" and ".." the backing
+        transport will eventually see -- including ones the client sent as
+        "%2F" or "%2E%2E" -- takes part in the normalisation, and the result
+        is escaped exactly once.
 
         Args:
             relpath: The relative path from the client.
@@ -88,8 +90,10 @@ class VfsRequest(request.SmartServerRequest):
         Returns:
             A string path suitable for use on the server side.
         """
-        x = request.SmartServerRequest.translate_client_path(self, relpath)
-        return str(urlutils.unescape(x))
+        unescaped = urlutils.unescape(relpath.decode("utf-8"))
+        return request.SmartServerRequest.translate_client_path(
+            self, unescaped.encode("utf-8")
+        )
 
 
 class HasRequest(VfsRequest):
